@@ -98,6 +98,10 @@ type Env struct {
 	// operands, makes the model fetch both leaves before applying the
 	// operator (the one permitted deviation under FastEvaluation).
 	Paired func(t *term.Term) bool
+	// LogApps makes the model record every operator application (builtin
+	// and registered) in order in Apps.
+	LogApps bool
+	Apps    []Ev
 }
 
 func (env *Env) fetch(t *term.Term) (interface{}, error) {
@@ -118,9 +122,16 @@ func (env *Env) apply(t *term.Term, args []interface{}) (interface{}, error) {
 		cp := append([]interface{}(nil), args...)
 		r, err := f(cp)
 		env.Trace = append(env.Trace, Ev{Name: t.Name, Args: cp, Res: r, Err: err})
+		if env.LogApps {
+			env.Apps = append(env.Apps, Ev{Name: t.Name, Args: cp, Res: r, Err: err})
+		}
 		return r, err
 	}
-	return Builtin(t.Name, args)
+	r, err := Builtin(t.Name, args)
+	if env.LogApps {
+		env.Apps = append(env.Apps, Ev{Name: t.Name, Args: append([]interface{}(nil), args...), Res: r, Err: err})
+	}
+	return r, err
 }
 
 func isLeaf(t *term.Term) bool { return t.K == term.KConst || t.K == term.KVar }
